@@ -237,6 +237,16 @@ def side_conditions(ctx, rid):
             st = rm.stmts(bb)[where[1]]
             k = op_const(st["rv"].get("use")) if "use" in st["rv"] else None
             w[pl["p"][-1]["n"]] = k["v"] if k else "param"
+    if not w:
+        # struct-update form: `Self { raw, draw_borders: false, ..self }`
+        for x in rm.reachable():
+            for st in rm.stmts(x):
+                rv = st.get("rv") or {}
+                if st["k"] == "assign" and rv.get("agg") == "adt" and ends(rv.get("adt"), "config::Config"):
+                    for fld, o in zip(rv["fields"], rv["ops"]):
+                        k = op_const(o)
+                        if k:
+                            w[fld] = k["v"]
     ctx.check(w.get("draw_borders") == "false", rid, "side:raw_mode-disables-borders", rm.span, rm.id, str(w))
     # S9: INV-SHRINK's premise (the decrement in the shrink loop cannot underflow)
     from .. import widths as _w
